@@ -159,6 +159,10 @@ func WriteMaterials(ms []modeling.MeshMaterial, out io.Writer) error {
 	return nil
 }
 
+type objIndexOffsets struct {
+	v, vt, vn int
+}
+
 func writeUsingMaterial(mat *modeling.Material, out *txt.Writer) {
 	if mat == nil {
 		out.StartEntry()
@@ -173,8 +177,8 @@ func writeUsingMaterial(mat *modeling.Material, out *txt.Writer) {
 	}
 }
 
-func writeFaceVerts(tris *iter.ArrayIterator[int], out *txt.Writer, start, end, offset int) {
-	shift := 1 + offset
+func writeFaceVerts(tris *iter.ArrayIterator[int], out *txt.Writer, start, end int, offset objIndexOffsets) {
+	shift := 1 + offset.v
 	for triIndex := start; triIndex < end; triIndex += 3 {
 		out.StartEntry()
 		out.String("f ")
@@ -188,8 +192,9 @@ func writeFaceVerts(tris *iter.ArrayIterator[int], out *txt.Writer, start, end, 
 	}
 }
 
-func writeFaceVertsAndUvs(tris *iter.ArrayIterator[int], out *txt.Writer, start, end, offset int) {
-	shift := 1 + offset
+func writeFaceVertsAndUvs(tris *iter.ArrayIterator[int], out *txt.Writer, start, end int, offset objIndexOffsets) {
+	shift := 1 + offset.v
+	uvShift := offset.vt - offset.v
 	for triIndex := start; triIndex < end; triIndex += 3 {
 		p1 := tris.At(triIndex) + shift
 		p2 := tris.At(triIndex+1) + shift
@@ -200,24 +205,25 @@ func writeFaceVertsAndUvs(tris *iter.ArrayIterator[int], out *txt.Writer, start,
 
 		out.Int(p1)
 		out.String("/")
-		out.Int(p1)
+		out.Int(p1 + uvShift)
 		out.Space()
 
 		out.Int(p2)
 		out.String("/")
-		out.Int(p2)
+		out.Int(p2 + uvShift)
 		out.Space()
 
 		out.Int(p3)
 		out.String("/")
-		out.Int(p3)
+		out.Int(p3 + uvShift)
 		out.NewLine()
 		out.FinishEntry()
 	}
 }
 
-func writeFaceVertsAndNormals(tris *iter.ArrayIterator[int], out *txt.Writer, start, end, offset int) {
-	shift := 1 + offset
+func writeFaceVertsAndNormals(tris *iter.ArrayIterator[int], out *txt.Writer, start, end int, offset objIndexOffsets) {
+	shift := 1 + offset.v
+	nShift := offset.vn - offset.v
 	for triIndex := start; triIndex < end; triIndex += 3 {
 		p1 := tris.At(triIndex) + shift
 		p2 := tris.At(triIndex+1) + shift
@@ -228,24 +234,26 @@ func writeFaceVertsAndNormals(tris *iter.ArrayIterator[int], out *txt.Writer, st
 
 		out.Int(p1)
 		out.String("//")
-		out.Int(p1)
+		out.Int(p1 + nShift)
 		out.Space()
 
 		out.Int(p2)
 		out.String("//")
-		out.Int(p2)
+		out.Int(p2 + nShift)
 		out.Space()
 
 		out.Int(p3)
 		out.String("//")
-		out.Int(p3)
+		out.Int(p3 + nShift)
 		out.NewLine()
 		out.FinishEntry()
 	}
 }
 
-func writeFaceVertAndUvsAndNormals(tris *iter.ArrayIterator[int], out *txt.Writer, start, end, offset int) {
-	shift := 1 + offset
+func writeFaceVertAndUvsAndNormals(tris *iter.ArrayIterator[int], out *txt.Writer, start, end int, offset objIndexOffsets) {
+	shift := 1 + offset.v
+	uvShift := offset.vt - offset.v
+	nShift := offset.vn - offset.v
 	for triIndex := start; triIndex < end; triIndex += 3 {
 		p1 := tris.At(triIndex) + shift
 		p2 := tris.At(triIndex+1) + shift
@@ -256,23 +264,23 @@ func writeFaceVertAndUvsAndNormals(tris *iter.ArrayIterator[int], out *txt.Write
 
 		out.Int(p1)
 		out.String("/")
-		out.Int(p1)
+		out.Int(p1 + uvShift)
 		out.String("/")
-		out.Int(p1)
+		out.Int(p1 + nShift)
 		out.Space()
 
 		out.Int(p2)
 		out.String("/")
-		out.Int(p2)
+		out.Int(p2 + uvShift)
 		out.String("/")
-		out.Int(p2)
+		out.Int(p2 + nShift)
 		out.Space()
 
 		out.Int(p3)
 		out.String("/")
-		out.Int(p3)
+		out.Int(p3 + uvShift)
 		out.String("/")
-		out.Int(p3)
+		out.Int(p3 + nShift)
 		out.NewLine()
 		out.FinishEntry()
 	}
@@ -358,9 +366,9 @@ func WriteMeshes(meshes []ObjMesh, materialFile string, out io.Writer) error {
 		}
 	}
 
-	var faceWriter func(tris *iter.ArrayIterator[int], out *txt.Writer, start, end, offset int)
+	var faceWriter func(tris *iter.ArrayIterator[int], out *txt.Writer, start, end int, offset objIndexOffsets)
 
-	indexOffset := 0
+	indexOffset := objIndexOffsets{}
 	for _, objMesh := range meshes {
 		if len(meshes) > 1 || objMesh.Name != "" {
 			fmt.Fprintf(out, "g %s\n", objMesh.Name)
@@ -401,7 +409,13 @@ func WriteMeshes(meshes []ObjMesh, materialFile string, out io.Writer) error {
 				offset = nextOffset
 			}
 		}
-		indexOffset += m.AttributeLength()
+		indexOffset.v += m.AttributeLength()
+		if m.HasFloat2Attribute(modeling.TexCoordAttribute) {
+			indexOffset.vt += m.AttributeLength()
+		}
+		if m.HasFloat3Attribute(modeling.NormalAttribute) {
+			indexOffset.vn += m.AttributeLength()
+		}
 	}
 
 	return nil
